@@ -156,7 +156,7 @@ CLAIMED = {
        "types are invariant under matches, so a cell reached at static type `mut c` has a declared type == c. "
        "STAGES 5-6 add `for x in it body` over iterators `() -> (bool, T)`, tuple destructuring, and the operators on operands of a UNION "
        "type through the implementation's type queries: `u[i]` (index_result), `u.N` (tuple_element_at), `*u` (mut_element_type), `u(args)` "
-       "(arguments against params(), result return_type()), `u = v` (mut_assign_type), slices of unions of indexable types, `it $]` (collecting a "
+       "(arguments against params(), result return_type()), `u = v` (mut_assign_type), `(a, b) := u` (tuple_len, flatten_tuple), slices of unions of indexable types, `it $]` (collecting a "
        "hand-written iterator), struct literals (a repeated field name keeps its last initialiser) and field access, also on unions of struct "
        "types (Thm/C01StS: the literal's value tag matches its type field by field; a value of a struct type has every field the type demands). "
        "Thm/C01StU proves, for unions of any number of members, "
